@@ -967,6 +967,7 @@ def d_items(tier):
     for gate, table_b, table_g in (("M", builtin_membrane(), gen_membrane_sigs()),
                                    ("I", builtin_innate(), gen_innate_pats())):
         seen = set()
+        firsts = []
         for gi, (p, r, lv) in enumerate(table_b + table_g):
             ref = RefSig(p, r, 0)
             ws = witnesses(p, r)
@@ -979,6 +980,8 @@ def d_items(tier):
                     uncovered.append((gate, p, w))
                     continue
                 n_wit += 1
+                if not any(f[0] == gi for f in firsts):
+                    firsts.append((gi, w))
                 nlong = 0
                 for pclass, spec in perturbations(w, first=(wi == 0), flips=(wi == 0 or not quick)):
                     if pclass == "long":
@@ -1003,6 +1006,23 @@ def d_items(tier):
                 if gate == "I":
                     items.append(("I", "plain", [w], [1, 3, 5], ["ctor"],
                                   [k for k in VSETS if k not in ("default", "all")]))
+        # two signatures hit by one input (every unordered pair of first witnesses; both orders when a
+        # generated custom/learned signature is involved): max-over-matched and exact matched set
+        nb = len(table_b)
+        for ai, (ga, wa) in enumerate(firsts):
+            for gb, wb in firsts[ai + 1:]:
+                specs = [[wa, " and ", wb]]
+                if gb >= nb:
+                    specs.append([wb.upper(), "\n", wa])
+                for spec in specs:
+                    k = (gate, spec_key(spec))
+                    if k in seen:
+                        continue
+                    seen.add(k)
+                    if gate == "M":
+                        items.append(("M", "combo", spec, m_th, M_CHANNELS, None))
+                    else:
+                        items.append(("I", "combo", spec, i_th, ["none", "ctor", "add"], ["default"]))
     for tag, spec in hostile_inputs():
         items.append(("M", "hostile:" + tag, spec, m_th, ["none", "ctor", "import"], None))
         if quick:
@@ -1107,7 +1127,7 @@ def a_inputs():
     w2 = witnesses(*LEARNABLE[1])[-1]
     w3 = witnesses(CUSTOM[0][0], True)[-1]
     return ["hello world", f"Please {crit} ok", susp.upper(), f"say {w1.lower()} now", w2.upper() + "!",
-            f"the {w3.swapcase()} co"]
+            f"the {w3.swapcase()} co", f"{susp} {w1.upper()}"]
 
 
 class RefMembrane:
@@ -1407,7 +1427,7 @@ def run(ctx):
         "the reference regex matcher is cross-checked against re.compile(p, re.I).search on every evaluated pair",
         "validator reference is one-directional: only inputs the documented rule must reject are asserted "
         "(JSON: invalid by RFC 8259 grammar, nesting > max_depth, size > max_size; NaN/Infinity are don't-care)",
-        "engine A: 6 inputs, 2 learnable patterns, 1 custom signature, advances {1,59,61} s, rate_limit in {None,0,1,2}",
+        "engine A: 7 inputs, 2 learnable patterns, 1 custom signature, advances {1,59,61} s, rate_limit in {None,0,1,2}",
     ]
 
 
